@@ -89,3 +89,75 @@ partial def diff (pfx : String) (path : String) (a b : Node) : Option (String ×
 
 end Node
 end IastModel
+
+namespace IastModel
+namespace Node
+
+/-- does the optional chain `n` still contain a `?.` link along its spine -/
+partial def spineHasOptional : Node → Bool
+  | optChain true _ _ => true
+  | optChain false b _ => spineHasOptional b
+  | optCall c _ _ => (match c with | optChain .. => spineHasOptional c | _ => false)
+  | member o _ _ => (match o with | optChain .. => spineHasOptional o | _ => false)
+  | _ => false
+
+def isEmptyStmt : Node → Bool
+  | other "EmptyStatement" _ _ _ => true
+  | _ => false
+
+/-- normal form used to compare the in-memory output tree with the re-parsed printed text: no
+    parentheses, no source positions, no literal spelling (glue) -/
+partial def normText : Node → Node
+  | paren e _ => normText e
+  | lit k v _ _ => lit k (if k == "StringLiteral" then v else "") "" Span.dummy
+  | ident n _ => ident n Span.dummy
+  | pname n _ => pname n Span.dummy
+  | other k _ ns vs =>
+    -- drop `raw` spellings of template elements
+    let kv := (ns.zip vs).filter fun p => p.1 != "raw"
+    other k Span.dummy (kv.map (·.1)) (kv.map fun p => normText p.2)
+  | arg s e => arg (s.map fun _ => Span.dummy) (normText e)
+  | obj ns vs =>
+    if ns == ["start", "end"] then obj [] []
+    else
+      let kv := (ns.zip vs).filter fun p => p.1 != "span"
+      obj (kv.map (·.1)) (kv.map fun p => normText p.2)
+  | n =>
+    let n' := n.withKids (n.kids.map normText)
+    match n' with
+    | bin o l r _ => bin o l r Span.dummy
+    | assign o l r _ => assign o l r Span.dummy
+    | tpl e q _ => tpl e q Span.dummy
+    | call c a _ =>
+      -- a call / member access printed right after an optional chain continues that chain
+      (match c with
+       | optChain .. => if spineHasOptional c then optChain false (optCall c a Span.dummy) Span.dummy else call c a Span.dummy
+       | _ => call c a Span.dummy)
+    | member o p _ =>
+      (match o with
+       | optChain .. => if spineHasOptional o then optChain false (member o p Span.dummy) Span.dummy else member o p Span.dummy
+       | _ => member o p Span.dummy)
+    | optChain o (optChain false (member mo mp _) _) _ =>
+      -- the member rule below already wrapped the base of this link
+      optChain o (member mo mp Span.dummy) Span.dummy
+    | optChain o b _ =>
+      -- a chain wrapper left behind by the lowering with no `?.` below it prints as plain code
+      if !o && !spineHasOptional b then
+        (match b with
+         | optCall c a _ => call c a Span.dummy
+         | other' => other')
+      else optChain o b Span.dummy
+    | optCall c a _ => optCall c a Span.dummy
+    | unary o a _ => unary o a Span.dummy
+    | arrow p b t _ => arrow p b t Span.dummy
+    | seq e _ => seq e Span.dummy
+    | cond t c a _ => cond t c a Span.dummy
+    | array e _ => array e Span.dummy
+    | block e _ => block (e.filter fun x => !isEmptyStmt x) Span.dummy
+    | arr xs => arr (xs.filter fun x => !isEmptyStmt x)
+    | ifStmt t c a _ => ifStmt t c a Span.dummy
+    | exprStmt e _ => exprStmt e Span.dummy
+    | m => m
+
+end Node
+end IastModel
